@@ -77,7 +77,10 @@ def generate(seed, tier="quick", faults=True, light=False, **kw):
             xdisk["files"][posixpath.join(out_rel, "stale.old")] = "stale content\n"
         if paths and r.random() < 0.5:
             victim = r.choice(paths)
-            xdisk["files"][W.mirror(in_rel, out_rel, victim) if not single else out_rel] = "OLD VERSION that is longer than new\n" * 3
+            # (str contents are written as Latin-1 bytes: the second and third variants are not decodable as UTF-8)
+            xdisk["files"][W.mirror(in_rel, out_rel, victim) if not single else out_rel] = r.choice([
+                "OLD VERSION that is longer than new\n" * 3, "OLD VERSION that is longer than new\n" * 3,
+                "OLD VERSION torn inside a character \xe2\x82", "\xff\xfe binary left-over\n"])
     elif single and r.random() < 0.5:
         xdisk["dirs"].append(posixpath.dirname(out_rel))
     knobs = GC.gen_knobs(r)
@@ -90,6 +93,15 @@ def generate(seed, tier="quick", faults=True, light=False, **kw):
         plan["out_suffix"] = r.choice(["", "", "", "/"])
     if dump and r.random() < 0.3:
         xdisk["files"][dump] = "0.0.0.0\tstale map line from an earlier run\n" * r.randint(1, 60)
+        if r.random() < 0.5:
+            # ... or a well-formed map of this tree's own addresses, left by a run under another salt (perhaps interrupted)
+            xdisk["files"][dump] = GC.stale_map(files, r.getrandbits(30), r.choice([0, 0, 1, 3, 7])) or xdisk["files"][dump]
+    if dump and r.random() < 0.06:
+        # left-overs with temporary-file names next to the map (an interrupted run of a tool that writes via a temporary name)
+        if r.random() < 0.5:
+            xdisk["dirs"].append(dump + ".tmp")
+        else:
+            xdisk["files"][dump + r.choice([".tmp", ".part", "~"])] = "left-over\n"
     if r.random() < 0.08 and not single and not light:
         plan["pre_same_run"] = True        # library use: this process has already anonymized the same tree once, elsewhere
     if dump and len(files) >= 2 and r.random() < 0.04 and not light:
@@ -538,6 +550,29 @@ def check(plan):
                     if not complete:
                         viol("C16", "unreported-failure", "file %r failed (faults %s) but was not reported" % (
                             p, [f["kind"] for f in plan["faults"] if (f.get("victim") or f.get("path")) == p]))
+            # a file that CAN be processed yields its output: being reported needs a cause (an injected fault on that file,
+            # undecodable bytes, or an output path that is occupied) - left-overs at the output path are not one
+            if not any(f["kind"] in ("mkdir_eacces", "mkdir_race", "crash", "interrupt") or f.get("dump") for f in fired_sys):
+                # (a record is attributed to the longest input path it names: `in/x` is a substring of `in/d/simfs/in/x`)
+                blamed = set()
+                if entry in ("cli", "files"):
+                    for lv, msg, tb in h["logs"]:
+                        if lv in ("WARNING", "ERROR", "CRITICAL"):
+                            cands = [q for q in inputs if "/simfs/" + q in W.norm_paths(msg)]
+                            if cands:
+                                blamed.add(max(cands, key=len))
+                else:
+                    blamed = {q for q in visible if reported[q]}
+                hit = {posixpath.normpath(f.get("victim") or f.get("path") or "") for f in fired_sys}
+                for p in visible:
+                    mp = mirror[p]
+                    if p not in blamed or p in faulted or texts[p] is None or mp in hit or p in hit:
+                        continue
+                    if mp in S0["dirs"] or any(a in S0["files"] for a in _ancestors(mp)):
+                        continue
+                    viol("C16", "failed-without-cause", "file %r was reported as failed although nothing stands in its way "
+                         "(faults fired: %s; left-over at its output path: %r)" % (
+                             p, [(f["kind"], f.get("victim") or f.get("path")) for f in fired_sys], (S0["files"].get(mp) or b"")[:30] or None))
             if dump and o["ip"] and not any(f.get("dump") and f.get("fired") for f in h["faults"]):
                 if dump not in S1["files"]:
                     viol("C16", "dump-missing", "the run finished but the map file %r was not written" % dump)
